@@ -5,7 +5,7 @@ rc_bin("c01_thr", ["harness/batch_thr.cc"], lib=True, defines=['VH_PROP_ID=\\"C0
 rc_bin("c01_thr_tsan", ["harness/batch_thr.cc"], lib=True, san="tsan", defines=['VH_PROP_ID=\\"C01\\"'])
 PROPS["C01"] = dict(
     level_text="Schedule-controlled execution of the unmodified batch span/log processors (token-renamed copies of batch_*_processor.{h,cc}, circular_buffer.h, atomic_unique_ptr.h compiled against a scheduler shim that owns every atomic/mutex/condition-variable/thread/clock operation, virtual time): configuration, producer/flusher/shutdown programs, exporter latency AND the interleaving are generated (weighted, uniform and PCT priority schedules), shrunk and replayed. Every explored history satisfied: exactly-once delivery, per-producer order, losses only under the legit-drop rule (queue could have been full by call/return stamps, or the produce call raced Shutdown), producers never wait for a slow exporter. Bounded exploration is the right level for a property quantified over interleavings.",
-    technique="generated schedules over a deterministic scheduler shim (rapidcheck choice streams) + history-invariant oracle",
+    technique="generated schedules (weighted/uniform/PCT) over a deterministic scheduler shim (rapidcheck choice streams) + history-invariant oracle + real-thread stress under ASan and TSan",
     rule="A case = (processor configuration, thread programs, exporter behaviour, schedule).",
     assumptions=SCHED_ASSUMPTIONS + [SC_NOTE],
     runs=[
